@@ -123,6 +123,8 @@ package nsqadmin
 //@   ensures[admin-carried-out] admin() && result1 == nil ==> ciCalls == old(ciCalls) + 1 && ciLastTopic == topicName && ciLastChannel == channelName && (channelName == "" ? actionOp(ciLastOp) : actionOpCh(ciLastOp))
 //@   ensures[admin-not-403] admin() ==> !forbidden(result1)
 //@   ensures[at-most-one-call] ciCalls <= old(ciCalls) + 1
+//   (round 4) whatever fails, the error is an http_api.Err (the V1 decorator type-asserts it; function-type contract of APIHandler)
+//@   ensures[error-is-an-http-error] result1 != nil ==> dyntype(result1) == typetag("http_api.Err")
 //@   ensures[notified-iff-called] adminNotifications - old(adminNotifications) == ciCalls - old(ciCalls)
 //@   modifies ciCalls, ciLastOp, ciLastTopic, ciLastChannel, adminNotifications, lastNow, hdrKey, hdrVal, aclIdentity
 
